@@ -566,7 +566,15 @@ func runEpFault(sc proxyScenario) (problems []string, skipped string) {
 		fp.Request(uint64(100+i), 4, append(append([]byte{}, session...), snix.U64(1024)...))
 	}
 	time.Sleep(50 * time.Millisecond)
+	closedByHarness := false
 	switch sc.fault {
+	case "epfault-silent":
+		// the proxy side does not react to anything: Close gives up waiting after its 5 s and must still
+		// take everything down
+		closedByHarness = true
+		if !hx.WithTimeout(watchdog+12*time.Second, func() { fp.EP.Close() }) {
+			problems = append(problems, "Endpoint.Close did not return after "+sc.fault)
+		}
 	case "epfault-text":
 		fp.Conn.WriteMessage(websocket.TextMessage, []byte("not a frame"))
 	case "epfault-short":
@@ -592,7 +600,7 @@ func runEpFault(sc proxyScenario) (problems []string, skipped string) {
 	case <-time.After(watchdog + 6*time.Second):
 		problems = append(problems, "Endpoint.Accept did not return after "+sc.fault)
 	}
-	if !hx.WithTimeout(watchdog+6*time.Second, func() { fp.EP.Close() }) {
+	if !closedByHarness && !hx.WithTimeout(watchdog+6*time.Second, func() { fp.EP.Close() }) {
 		problems = append(problems, "Endpoint.Close did not return after "+sc.fault)
 	}
 	for _, a := range as {
@@ -661,7 +669,7 @@ func runProxy(sc proxyScenario) (problems []string, skipped string) {
 	}
 	var hung *websocket.Conn // fault "kick-hung": the first endpoint is a peer that never answers
 	hungClosed := make(chan struct{})
-	if sc.fault == "kick-hung" {
+	if sc.fault == "kick-hung" || sc.fault == "kick-hung-hinted" {
 		u := "ws" + strings.TrimPrefix(ts.URL, "http") + "/"
 		hung, _, err = websocket.DefaultDialer.Dial(u, nil)
 		if err != nil {
@@ -680,6 +688,12 @@ func runProxy(sc proxyScenario) (problems []string, skipped string) {
 				return nil, "hung endpoint never registered"
 			}
 			time.Sleep(time.Millisecond)
+		}
+		if sc.fault == "kick-hung-hinted" {
+			// the peer announces that it wants to stop (shutdown hint) and then goes silent: the proxy's own
+			// graceful shutdown is already under way, and never completes, when the newer endpoint arrives
+			hung.WriteMessage(websocket.BinaryMessage, append(snix.U64(0), 7, 0))
+			time.Sleep(100 * time.Millisecond)
 		}
 		hello := snix.ClientHello("a.test")
 		var fronts []net.Conn
@@ -1015,11 +1029,11 @@ func main() {
 		for i := 0; i < nr; i++ {
 			ops = append(ops, genRace(r).ops()...)
 		}
-		for _, fault := range []string{"sever", "kick", "endpoint-close", "cancel", "kick-hung", "sever-backlog", "epfault-text", "epfault-short", "epfault-cut"} {
+		for _, fault := range []string{"sever", "kick", "endpoint-close", "cancel", "kick-hung", "sever-backlog", "epfault-text", "epfault-short", "epfault-cut", "epfault-silent", "kick-hung-hinted"} {
 			ops = append(ops, proxyScenario{fault, 2, "legacy"}.canon())
 		}
 		for i := 0; i < np; i++ {
-			ops = append(ops, proxyScenario{hx.Pick(r, []string{"sever", "kick", "endpoint-close", "cancel", "kick-hung", "sever-backlog", "epfault-text", "epfault-short", "epfault-cut"}), r.Intn(4), hx.Pick(r, []string{"legacy", "legacy", "siding"})}.canon())
+			ops = append(ops, proxyScenario{hx.Pick(r, []string{"sever", "kick", "endpoint-close", "cancel", "kick-hung", "sever-backlog", "epfault-text", "epfault-short", "epfault-cut", "epfault-silent", "kick-hung-hinted"}), r.Intn(4), hx.Pick(r, []string{"legacy", "legacy", "siding"})}.canon())
 		}
 	}
 	var lines []string
